@@ -268,12 +268,15 @@ func longFill(w *tr.W, rng *rand.Rand, sized bool, total int) {
 		getters(w, l)
 	}
 	w.Emit(fin(tr.E{"ev": "final", "obs": l.obs()}))
-	shrink := 3
+	// (a large cache: few calls that make the specification rebuild its key -> value functions, and the
+	// lists only once - TLC's look-ups in large functions over enumerated sets are searches)
+	post := []act{{Op: "get", K: 1}, {Op: "del", K: total}, {Op: "setnx", K: 2, V: 7, S: 1}, {Op: "peek", K: total / 2},
+		{Op: "qstats"}, {Op: "setcap", C: 3}, {Op: "qstats"}, {Op: "setx", K: 3, V: 7, S: 1}, {Op: "get", K: total - 1}, {Op: "qev"}, {Op: "qlen"}}
 	if total > 1000 {
-		shrink = total - 4
+		post = []act{{Op: "get", K: 1}, {Op: "setnx", K: 2, V: 7, S: 1}, {Op: "peek", K: total / 2}, {Op: "qstats"},
+			{Op: "setcap", C: total - 4}, {Op: "qstats"}, {Op: "peek", K: 3}, {Op: "qev"}, {Op: "qlen"}}
 	}
-	for _, a := range []act{{Op: "get", K: 1}, {Op: "del", K: total}, {Op: "setnx", K: 2, V: 7, S: 1}, {Op: "peek", K: total / 2},
-		{Op: "qstats"}, {Op: "setcap", C: shrink}, {Op: "qstats"}, {Op: "setx", K: 3, V: 7, S: 1}, {Op: "get", K: total - 1}, {Op: "qev"}, {Op: "qlen"}} {
+	for _, a := range post {
 		w.Emit(fin(pev(tr.E{"ev": "callr", "a": a.rec(), "r": safeDo(l, a)})))
 	}
 	if total <= 1000 {
